@@ -120,6 +120,7 @@ type Frame struct {
 type Exec struct {
 	panicMode  bool // deferred calls are being run because of a panic
 	didRecover bool // recover() was evaluated in panic mode
+	escaped    []*State // states in which the function under verification lets a panic escape (contract says maypanic)
 	smt       *SMT
 	prog      *Program
 	obls      []*Obligation
